@@ -1467,3 +1467,178 @@ def drop_self_assignments(fn) -> int:
                     body[i] = ast.copy_location(ast.Pass(), st)
                 n += 1
     return n
+
+
+# ---------------------------------------------------------------- pair idioms: indexing vs unpacking, key loops vs items(), operator getters
+
+def operator_getters(fn) -> int:
+    """`itemgetter(k)` / `attrgetter("a")` (module operator) are `lambda x: x[k]` / `lambda x: x.a`"""
+    n = 0
+
+    class T(ast.NodeTransformer):
+        def visit_Call(self, c):
+            nonlocal n
+            self.generic_visit(c)
+            name = c.func.id if isinstance(c.func, ast.Name) else (c.func.attr if isinstance(c.func, ast.Attribute) and isinstance(c.func.value, ast.Name) and c.func.value.id == "operator" else None)
+            if name in ("itemgetter", "attrgetter") and len(c.args) == 1 and not c.keywords and isinstance(c.args[0], ast.Constant):
+                k = c.args[0].value
+                x = ast.Name(id="x", ctx=ast.Load())
+                if name == "itemgetter":
+                    body = ast.Subscript(value=x, slice=ast.Constant(value=k), ctx=ast.Load())
+                elif isinstance(k, str) and k.isidentifier():
+                    body = ast.Attribute(value=x, attr=k, ctx=ast.Load())
+                else:
+                    return c
+                n += 1
+                lam = ast.Lambda(args=ast.arguments(posonlyargs=[], args=[ast.arg(arg="x")], kwonlyargs=[], kw_defaults=[], defaults=[]), body=body)
+                return ast.fix_missing_locations(ast.copy_location(lam, c))
+            return c
+
+    for i, st in enumerate(list(fn.body)):
+        fn.body[i] = T().visit(st)
+    return n
+
+
+def dict_key_loops(fn) -> int:
+    """`for k in D: v = D[k]; ...` (D a plain name / attribute chain that the body does not rebind) is `for k, v in D.items(): ...`"""
+    n = 0
+    for body in _stmt_blocks(fn):
+        for s in body:
+            if not (isinstance(s, ast.For) and isinstance(s.target, ast.Name) and len(s.body) >= 2):
+                continue
+            d = s.iter
+            if isinstance(d, ast.Call) and isinstance(d.func, ast.Attribute) and d.func.attr == "keys" and not d.args:
+                d = d.func.value
+            if not isinstance(d, (ast.Name, ast.Attribute)) or not is_pure(d):
+                continue
+            first = s.body[0]
+            if not (isinstance(first, ast.Assign) and len(first.targets) == 1 and isinstance(first.targets[0], ast.Name) and isinstance(first.value, ast.Subscript)
+                    and src(first.value.value) == src(d) and isinstance(first.value.slice, ast.Name) and first.value.slice.id == s.target.id):
+                continue
+            root = src(d).split(".")[0]
+            stored = {x.id for b in s.body[1:] for x in ast.walk(b) if isinstance(x, ast.Name) and isinstance(x.ctx, (ast.Store, ast.Del))}
+            if root in stored or s.target.id in stored or first.targets[0].id == s.target.id:
+                continue
+            s.target = ast.copy_location(ast.Tuple(elts=[ast.Name(id=s.target.id, ctx=ast.Store()), ast.Name(id=first.targets[0].id, ctx=ast.Store())], ctx=ast.Store()), s.target)
+            s.iter = ast.copy_location(ast.Call(func=ast.Attribute(value=ast_copy(d), attr="items", ctx=ast.Load()), args=[], keywords=[]), s.iter)
+            del s.body[0]
+            ast.fix_missing_locations(s)
+            n += 1
+    return n
+
+
+def _pair_arity(scope_nodes, name):
+    """uses of `name` inside `scope_nodes`: (max constant index + 1, all uses are constant subscripts or bare loads?) or None"""
+    mx = -1
+    bare = 0
+    parents = {}
+    for root in scope_nodes:
+        for p in ast.walk(root):
+            for c in ast.iter_child_nodes(p):
+                parents[id(c)] = p
+    for root in scope_nodes:
+        for x in ast.walk(root):
+            if isinstance(x, ast.Name) and x.id == name:
+                if not isinstance(x.ctx, ast.Load):
+                    return None
+                p = parents.get(id(x))
+                if isinstance(p, ast.Subscript) and p.value is x and isinstance(p.ctx, ast.Load) and isinstance(p.slice, ast.Constant) and isinstance(p.slice.value, int) and 0 <= p.slice.value <= 3:
+                    mx = max(mx, p.slice.value)
+                elif isinstance(p, (ast.For, ast.comprehension)) and p.iter is x:
+                    return "iterated"
+                else:
+                    bare += 1
+    if mx < 1:
+        return None
+    return mx + 1
+
+
+def _replace_pair(nodes, name, parts):
+    class T(ast.NodeTransformer):
+        def visit_Subscript(self, s):
+            if isinstance(s.value, ast.Name) and s.value.id == name and isinstance(s.slice, ast.Constant) and isinstance(s.slice.value, int) and 0 <= s.slice.value < len(parts):
+                return ast.copy_location(ast.Name(id=parts[s.slice.value], ctx=ast.Load()), s)
+            return self.generic_visit(s)
+
+        def visit_Name(self, x):
+            if x.id == name and isinstance(x.ctx, ast.Load):
+                return ast.copy_location(ast.Tuple(elts=[ast.Name(id=p, ctx=ast.Load()) for p in parts], ctx=ast.Load()), x)
+            return x
+
+    return [ast.fix_missing_locations(T().visit(n)) for n in nodes]
+
+
+def _is_pair_source(it) -> bool:
+    """iterables whose elements are known to be pairs"""
+    if isinstance(it, ast.Call):
+        if isinstance(it.func, ast.Attribute) and it.func.attr == "items" and not it.args:
+            return True
+        if isinstance(it.func, ast.Name) and it.func.id == "enumerate" and 1 <= len(it.args) <= 2:
+            return True
+        if isinstance(it.func, ast.Name) and it.func.id == "zip" and len(it.args) == 2:
+            return True
+        if isinstance(it.func, ast.Name) and it.func.id in ("sorted", "list", "tuple", "reversed") and it.args:
+            return _is_pair_source(it.args[0])
+    if isinstance(it, (ast.GeneratorExp, ast.ListComp)) and len(it.generators) == 1 and isinstance(it.elt, ast.Name) and isinstance(it.generators[0].target, ast.Name) and it.elt.id == it.generators[0].target.id:
+        return _is_pair_source(it.generators[0].iter)
+    return False
+
+
+def index_to_unpack(fn) -> int:
+    """`for p in pairs: ... p[0] ... p[1]` is `for p__0, p__1 in pairs: ... p__0 ... p__1` (the same for comprehension variables); a nested
+    `for el in p:` over a known pair iterates `(p[0], p[1])`.  Applied when every use of the variable is a constant index (or the pair as a whole)"""
+    n = 0
+    used = {x.id for x in ast.walk(fn) if isinstance(x, ast.Name)}
+    # loops over the pair itself first
+    for body in _stmt_blocks(fn):
+        for s in body:
+            if isinstance(s, ast.For) and isinstance(s.target, ast.Name) and _is_pair_source(s.iter):
+                for inner in [x for b in s.body for x in ast.walk(b) if isinstance(x, ast.For)]:
+                    if isinstance(inner.iter, ast.Name) and inner.iter.id == s.target.id:
+                        inner.iter = ast.fix_missing_locations(ast.copy_location(ast.Tuple(elts=[
+                            ast.Subscript(value=ast.Name(id=s.target.id, ctx=ast.Load()), slice=ast.Constant(value=i), ctx=ast.Load()) for i in (0, 1)], ctx=ast.Load()), inner.iter))
+                        n += 1
+    for body in _stmt_blocks(fn):
+        for s in body:
+            if not (isinstance(s, ast.For) and isinstance(s.target, ast.Name)):
+                continue
+            name = s.target.id
+            inside = {id(x) for x in ast.walk(s)}
+            if any(isinstance(x, ast.Name) and x.id == name and id(x) not in inside for x in ast.walk(fn)):
+                continue
+            ar = _pair_arity(s.body + s.orelse, name)
+            if not isinstance(ar, int) or (ar > 2 and not _is_pair_source(s.iter)):
+                continue
+            if ar == 2 or _is_pair_source(s.iter):
+                parts = [f"{name}__{i}" for i in range(ar)]
+                if set(parts) & used:
+                    continue
+                s.target = ast.copy_location(ast.Tuple(elts=[ast.Name(id=p, ctx=ast.Store()) for p in parts], ctx=ast.Store()), s.target)
+                s.body = _replace_pair(s.body, name, parts)
+                s.orelse = _replace_pair(s.orelse, name, parts)
+                ast.fix_missing_locations(s)
+                n += 1
+    # comprehension variables
+    for comp in [x for x in ast.walk(fn) if isinstance(x, (ast.ListComp, ast.SetComp, ast.GeneratorExp, ast.DictComp))]:
+        if len(comp.generators) != 1:
+            continue
+        g = comp.generators[0]
+        if not isinstance(g.target, ast.Name):
+            continue
+        name = g.target.id
+        scope = ([comp.key, comp.value] if isinstance(comp, ast.DictComp) else [comp.elt]) + list(g.ifs)
+        ar = _pair_arity(scope, name)
+        if ar != 2:
+            continue
+        parts = [f"{name}__{i}" for i in range(2)]
+        if set(parts) & used:
+            continue
+        g.target = ast.copy_location(ast.Tuple(elts=[ast.Name(id=p, ctx=ast.Store()) for p in parts], ctx=ast.Store()), g.target)
+        if isinstance(comp, ast.DictComp):
+            comp.key, comp.value = _replace_pair([comp.key, comp.value], name, parts)
+        else:
+            comp.elt = _replace_pair([comp.elt], name, parts)[0]
+        g.ifs = _replace_pair(list(g.ifs), name, parts)
+        ast.fix_missing_locations(comp)
+        n += 1
+    return n
